@@ -148,15 +148,17 @@ def run(ctx):
             g_ = P.strip(t_, calls=False)
             return g_[0] == "call" and g_[1].rsplit("::", 1)[-1] == "get" and len(g_[2]) == 2 and P.strip(g_[2][0]) == map_term
         present = {}   # probe term -> edges on which it is known present
+        absent = {}    # probe term -> edges on which it is known absent
         all_groups = {}
+        all_false = {}
         for b, lab, truth, term in I.bool_edges(fn, pr):
-            if not truth or term[0] != "call":
+            if term[0] != "call":
                 continue
             nm = term[1].rsplit("::", 1)[-1]
             if nm == "contains_key" and P.strip(term[2][0]) == map_term:
-                present.setdefault(P.strip(term[2][1]), []).append((b, lab))
+                (present if truth else absent).setdefault(P.strip(term[2][1]), []).append((b, lab))
             if nm == "all":
-                all_groups.setdefault(term, []).append((b, lab))
+                (all_groups if truth else all_false).setdefault(term, []).append((b, lab))
         for gb, gt in fn.calls():
             if gb not in fn.cfg.reachable or gt["callee"].get("name") != "get":
                 continue
@@ -166,6 +168,8 @@ def run(ctx):
             for (b, lab, st) in I.option_edges(fn, pr, lambda t_, g_=gterm: I.unopt(t_) == g_):
                 if st == "some":
                     present.setdefault(P.strip(gterm[2][1]), []).append((b, lab))
+                else:
+                    absent.setdefault(P.strip(gterm[2][1]), []).append((b, lab))
         probe = None
         for cand, edges in present.items():
             if I.guarded_by(fn, bi, edges):
@@ -244,6 +248,26 @@ def run(ctx):
                 why = analyse_all_closure(F, all_call[2][1], map_term, weight)
                 if why:
                     problems.append("all() closure: " + why)
+        # completeness: within one step of the scan nothing but "the probe combo is absent" or "all() failed" may keep the pair
+        # from being reported (a further condition -- on the weight, say -- silently drops complete rank pairs)
+        if probe is not None and all_call is not None and not problems:
+            inner_loops = sorted([lp for lp in fl if bi in lp.body], key=lambda lp: len(lp.body))
+            if inner_loops:
+                lp0 = inner_loops[0]
+                miss = list(absent.get(probe, [])) + list(all_false.get(all_call, []))
+                nprobe0 = P.strip(P.narrow_deep(probe))
+                if nprobe0[0] == "field" and nprobe0[1][0] == "variant" and nprobe0[1][1][0] == "call":
+                    # `first()?` / `next()?` of the pair's own (never empty) iterator
+                    first_call = nprobe0[1][1]
+                    for (b_, lab_, st_) in I.option_edges(fn, pr, lambda t_, g_=first_call: P.strip(P.narrow_deep(P.strip(t_, calls=False)), calls=False) == g_
+                                                          or P.strip(t_, calls=False) == g_):
+                        if st_ == "none":
+                            miss.append((b_, lab_))
+                tails = [t_ for (t_, h_) in fn.cfg.back_edges() if h_ == lp0.header]
+                reach_ = I.reachable_avoiding(fn, miss, start=lp0.some_block, removed_blocks=[bi, lp0.header])
+                if any(t_ in reach_ for t_ in tails):
+                    problems.append("a step of the scan can end without reporting the pair although its probe combo is present and all() "
+                                    "holds: some complete rank pairs are silently left out")
         if problems:
             ctx.violation(rule, f"{fn.path}|{V}", f"{V}: " + "; ".join(problems), fn=fn.path, file=fn.file, line=fn.blocks[bi]["line"],
                           construct=f"reporting of RankPair::{V}")
